@@ -70,6 +70,10 @@ def gen_tests(tier):
         if tier != "quick":
             for f, cfg in (("dsfail", CONFIGS_FULL[1]), ("panic11", CONFIGS_FULL[10])):
                 out.append((cfg, {"sig": sig2, "shape": "nested", "guards": [g1, g2], "fails": [f]}))
+    for g1, g2 in testgen.DIV0_PAIRS:
+        for cfg in (CONFIG_DEFAULT, CONFIG_Z3):
+            out.append((cfg, {"sig": sig2, "shape": "nested", "guards": [g1, g2], "fails": ["panic1"]}))
+            out.append((cfg, {"sig": sig2, "shape": "nested", "guards": [g2, g1], "fails": ["assert"]}))
     # sequences: first guard's failure is not an assertion failure (plain revert / non-configured panic), second is
     for g1, g2 in itertools.product(G2, repeat=2):
         if g1 == g2:
